@@ -195,7 +195,9 @@ def replay(obj):
     inp = f['input']
     if 'kexinit_payload_hex' not in inp:
         print(json.dumps(f, indent=1)[:2000])
-        return 0
+        import sys
+        from common import rerun_for_signature
+        return rerun_for_signature(sys.modules[__name__], f)
     payload = bytes.fromhex(inp['kexinit_payload_hex'])
     adv = pg.independent_kexinit_reader(payload)
     dec = [[n.decode('utf-8', 'replace') for n in l] for l in adv]
